@@ -86,6 +86,7 @@ type Host struct {
 	initial      bool // initial member
 	removed      bool
 	selfRemoved  bool
+	crashedBefore bool
 	role         int  // current role as far as the harness knows
 	joinRole     int  // role it was first added with: what its config must say
 	addIssued    bool // an add request for it is outstanding or of unknown outcome
@@ -531,29 +532,110 @@ func (s *Sim) checkTask(t *coro.Task) {
 	}
 }
 
-// taskPanicked turns a panic inside a task into a violation of the property
-// under check (or an infrastructure error if it came from the harness).
+// taskPanicked handles a panic raised by the code under test inside a task.
+// A panic is what it is in production: the process dies. The host is crashed
+// (fail-stop) and the run goes on; in addition, panics by which the code
+// itself detects a broken invariant are reported as violations of the
+// property that invariant belongs to, and a panic while a crashed host is
+// being restarted means the replica is not restartable (C04, C10, C16).
 func (s *Sim) taskPanicked(t *coro.Task) {
 	if t.Dead {
 		return // unwinding of a dead host's task: anything goes
 	}
 	msg := fmt.Sprint(t.Panic)
-	if s.orc.dupFired > 0 && (strings.Contains(msg, "committedC is full") || strings.Contains(msg, "CompletedC is full")) && t.Host >= 0 {
-		// explained fail-stop: the network duplicated a forwarded proposal, the
-		// same request key is in the log twice and the requesting NodeHost
-		// panics on the second notification. Duplication is outside the
-		// quantifier of C12; for the properties that include it (C02, C03, C06)
-		// this is a process crash like any other.
-		s.ctx.Count("probe.panic_duplicate_notification", 1)
-		h := s.hosts[t.Host]
-		if h.up || h.booting {
-			s.crashHost(h, false)
-		}
-		return
+	if len(msg) > 400 {
+		msg = msg[:400]
 	}
-	panic(runner.ForwardedPanic{Val: t.Panic, Stack: t.Stack})
+	origin := panicOrigin(t.Stack)
+	if strings.Contains(origin, "/verifsim/") || strings.Contains(origin, "verifsim.") {
+		panic(runner.ForwardedPanic{Val: t.Panic, Stack: t.Stack}) // harness bug: infrastructure error
+	}
+	s.ctx.Tracef("PANIC in task %s host %d: %s @ %s", t.Name, t.Host, msg, origin)
+	s.ctx.Tracef("%s", t.Stack)
+	short := msg
+	if i := strings.Index(short, "\n"); i > 0 {
+		short = short[:i]
+	}
+	if t.Host < 0 {
+		panic(runner.ForwardedPanic{Val: t.Panic, Stack: t.Stack})
+	}
+	h := s.hosts[t.Host]
+	explained := false
+	if s.orc.dupFired > 0 && (strings.Contains(msg, "committedC is full") || strings.Contains(msg, "CompletedC is full")) {
+		// the network duplicated a forwarded proposal: the same request key is in
+		// the log twice and the requesting NodeHost panics on the second
+		// notification. Duplication is outside the quantifier of C12.
+		s.ctx.Count("probe.panic_duplicate_notification", 1)
+		explained = true
+	}
+	if !explained {
+		s.ctx.Count("probe.internal_panic", 1)
+		for _, pr := range panicProperties(msg, origin) {
+			s.ctx.Violate(pr, "panic", "%s @ %s", short, origin)
+		}
+		if t.Name == "boot" && h.crashedBefore {
+			for _, pr := range []string{"C04", "C10", "C16"} {
+				s.ctx.Violate(pr, "restart-failed", "replica %d cannot be restarted after a crash: %s @ %s", h.replicaID, short, origin)
+			}
+		}
+		s.orc.panics = append(s.orc.panics, short+" @ "+origin)
+		s.ctx.Count("panic@"+origin, 1)
+	}
+	if h.up || h.booting {
+		s.crashHost(h, false)
+	}
 }
 
+// panicProperties maps the code's own invariant panics to properties.
+func panicProperties(msg, origin string) []string {
+	has := func(subs ...string) bool {
+		for _, x := range subs {
+			if strings.Contains(msg, x) {
+				return true
+			}
+		}
+		return false
+	}
+	switch {
+	case has("is full", "not ready for local read"):
+		return []string{"C12"}
+	case has("becoming candidate", "transitioning to", "is witness", "is not a nonVoting", "is not witness"):
+		return []string{"C18"}
+	case has("not committed entry", "not saved entry"):
+		return []string{"C19", "C02"}
+	case has("gap", "hole found", "moving backward", "committed entries being changed", "conflicts with committed entry",
+		"applied index", "applied term", "older than current state", "out of range state", "invalid commitTo", "alignment error"):
+		return []string{"C02"}
+	case has("out of date snapshot", "OnDiskIndex", "OnDiskInit", "on disk index", "init on disk"):
+		return []string{"C08", "C11"}
+	}
+	return nil
+}
+
+// panicOrigin: first frame below the panic that is neither runtime nor logger.
+func panicOrigin(stack string) string {
+	lines := strings.Split(stack, "\n")
+	seen := false
+	for i := 0; i < len(lines); i++ {
+		l := lines[i]
+		if strings.HasPrefix(l, "panic(") {
+			seen = true
+			continue
+		}
+		if !seen || strings.HasPrefix(l, "\t") || l == "" {
+			continue
+		}
+		if strings.HasPrefix(l, "runtime.") || strings.Contains(l, "logger.") || strings.Contains(l, "sinkLogger.") ||
+			strings.Contains(l, "panicNow") {
+			continue
+		}
+		if j := strings.LastIndex(l, "("); j > 0 {
+			l = l[:j]
+		}
+		return l
+	}
+	return "unknown"
+}
 
 type option struct {
 	kind   int // 0 resume, 1 worker event, 2 deliver, 3 client, 4 async job
@@ -849,6 +931,7 @@ func (s *Sim) crashHost(h *Host, teardown bool) {
 	}
 	h.up = false
 	h.booting = false
+	h.crashedBefore = true
 	s.orc.onCrash(h)
 	var torn simfs.TornChooser
 	if s.cfg.TornTail && !teardown {
